@@ -111,8 +111,10 @@ def make(client, history, cfg_push):
                 check(out.cls[0] == 'stream_error' and out.cls[1] == 7 and
                       out.cls[2] == promised, 'push-on-reset-parent-not-refused', out.cls)
             elif v.st in (IDLE, CLOSED, RES_REMOTE):
-                check(out.cls[0] == 'conn_error', 'push-on-dead-parent-accepted',
-                      (v.st, v.closed_by, out.cls))
+                check(out.cls[0] == 'conn_error', 'push-on-dead-parent-accepted' + (
+                    ':parent-of-push-on-half-closed(remote)'
+                    if getattr(v, 'pp_on_hcr', False) else ''),
+                    (v.st, v.closed_by, out.cls))
             else:
                 note('unspecified-parent-state:' + v.st)
         else:
